@@ -3390,6 +3390,21 @@ func runWSDEF(c *Ctx, r *Result, rule string) int {
 				}
 				if all && len(set) >= 2 {
 					defs = append(defs, def{fn: f, pos: ins.Pos(), kind: "string constant", set: set})
+				} else if call, isCall := ins.(*ssa.Call); isCall {
+					// a character set handed to strings.IndexAny and its like: the whitespace
+					// characters in it are this place's idea of whitespace
+					switch staticName(call) {
+					case "strings.IndexAny", "strings.LastIndexAny", "strings.ContainsAny", "strings.Trim", "strings.TrimLeft", "strings.TrimRight", "bytes.IndexAny", "bytes.ContainsAny":
+						ws := map[int64]bool{}
+						for ch := range set {
+							if isWS(ch) {
+								ws[ch] = true
+							}
+						}
+						if len(ws) >= 2 {
+							defs = append(defs, def{fn: f, pos: ins.Pos(), kind: "character set", set: ws})
+						}
+					}
 				}
 			}
 		}
@@ -4312,6 +4327,140 @@ func runAMPM(c *Ctx, r *Result, rule string) int {
 				}
 				r.Add(o)
 			}
+		}
+	}
+	return n
+}
+
+// ---------------------------------------------------------------------------------------
+// PAIR (C08): a parser function returns either a node and no error, or an error and no node.
+//
+// Every return of a jparse function with results (node, error): the error is the nil constant,
+// or the node is the nil constant, or both results are the two results of one call of another
+// such function (a pair that is handed on satisfies the rule if its producer does). `return n,
+// optimizeOperands(…)` hands out a half-optimised node (with a nil child) together with the
+// error: jparse.Parse then returns a non-nil expression and an error.
+// ---------------------------------------------------------------------------------------
+
+func runPAIR(c *Ctx, r *Result, rule string, fns []*ssa.Function) int {
+	n := 0
+	for _, f := range fns {
+		res := f.Signature.Results()
+		if res.Len() != 2 || !isErrorType(res.At(1).Type()) {
+			continue
+		}
+		switch res.At(0).Type().Underlying().(type) {
+		case *types.Interface, *types.Pointer:
+		default:
+			continue
+		}
+		ord := 0
+		for _, b := range f.Blocks {
+			ret, ok := b.Instrs[len(b.Instrs)-1].(*ssa.Return)
+			if !ok || len(ret.Results) != 2 {
+				continue
+			}
+			ord++
+			n++
+			o := Obligation{Rule: rule, Key: fmt.Sprintf("%s:return#%d", shortFn(f), ord), Fn: shortFn(f), Pos: c.W.Pos(ret.Pos()), Nontrivial: false}
+			v, e := ret.Results[0], ret.Results[1]
+			if f.Recover != nil && b == f.Recover {
+				// the return after a recovered panic hands out what the deferred closure stored
+				// into the named results; that closure is the subject of the ERR rule
+				o.Verdict, o.Reason = Discharged, "return after a recovered panic: the named results are set by the deferred closure (ERR rule)"
+				r.Add(o)
+				continue
+			}
+			// named results that a deferred closure can see are returned through their cells:
+			// what is returned is what this block stored into them last
+			cellVal := func(x ssa.Value) ssa.Value {
+				ld, ok := x.(*ssa.UnOp)
+				if !ok || ld.Op != token.MUL {
+					return x
+				}
+				al, ok := ld.X.(*ssa.Alloc)
+				if !ok {
+					return x
+				}
+				var last ssa.Value
+				for _, ins := range b.Instrs {
+					if st, isSt := ins.(*ssa.Store); isSt && st.Addr == ssa.Value(al) {
+						last = st.Val
+					}
+				}
+				if last != nil {
+					return last
+				}
+				return x
+			}
+			v, e = cellVal(v), cellVal(e)
+			forwarded := false
+			if x0, ok0 := v.(*ssa.Extract); ok0 {
+				if x1, ok1 := e.(*ssa.Extract); ok1 && x0.Tuple == x1.Tuple && x0.Index == 0 && x1.Index == 1 {
+					forwarded = true
+				}
+			}
+			switch {
+			case isNilConst(e):
+				o.Verdict, o.Reason = Discharged, "returns without an error"
+			case isNilConst(v):
+				o.Verdict, o.Reason = Discharged, "returns an error and no node"
+			case forwarded:
+				o.Verdict, o.Reason = Discharged, "hands on the pair another function returned"
+			case errProvablyNil(e, b):
+				o.Verdict, o.Reason = Discharged, "the error is nil on this path"
+			default:
+				o.Nontrivial = true
+				o.Verdict, o.Reason = Finding, "a node (" + describeVal(v) + ") is returned together with an error that may be non-nil (" + describeVal(e) + "): callers that test only the error are fine, but jparse.Parse hands the pair out — a non-nil, half-built expression next to an error"
+			}
+			r.Add(o)
+		}
+	}
+	return n
+}
+
+// errProvablyNil: block b lies on the err == nil edge of a test of e.
+func errProvablyNil(e ssa.Value, b *ssa.BasicBlock) bool {
+	return domGuard(b, func(cond ssa.Value) (int, bool) { return nilEdge(cond, e, true) })
+}
+
+// ---------------------------------------------------------------------------------------
+// ERRIS (C20, C10): "no value" is the sentinel itself, not an error that wraps it.
+//
+// An extension's non-nil error becomes Eval's error; only the bare jtypes.ErrUndefined stands
+// for "no value". A comparison by errors.Is (or errors.As) against an ErrUndefined sentinel also
+// accepts fmt.Errorf("…: %w", ErrUndefined) and swallows that error. Rule: no call of errors.Is /
+// errors.As under Eval has a sentinel named ErrUndefined as its target.
+// ---------------------------------------------------------------------------------------
+
+func runERRIS(c *Ctx, r *Result, rule string, fns []*ssa.Function) int {
+	n := 0
+	for _, f := range fns {
+		ord := 0
+		for _, ci := range callsIn(f) {
+			g := ci.Common().StaticCallee()
+			if g == nil || (g.String() != "errors.Is" && g.String() != "errors.As") || len(ci.Common().Args) != 2 {
+				continue
+			}
+			ord++
+			n++
+			o := Obligation{Rule: rule, Key: fmt.Sprintf("%s:%s#%d", shortFn(f), g.Name(), ord), Fn: shortFn(f), Pos: c.W.Pos(ci.Pos()), Nontrivial: true}
+			target := ci.Common().Args[1]
+			if mi, ok := target.(*ssa.MakeInterface); ok {
+				target = mi.X
+			}
+			name := ""
+			if ld, ok := target.(*ssa.UnOp); ok && ld.Op == token.MUL {
+				if gl, ok := ld.X.(*ssa.Global); ok {
+					name = gl.Name()
+				}
+			}
+			if name == "ErrUndefined" {
+				o.Verdict, o.Reason = Finding, "an error is compared with the ErrUndefined sentinel by errors." + g.Name() + ": an error that wraps the sentinel counts as \"no value\" and is swallowed instead of becoming Eval's error"
+			} else {
+				o.Verdict, o.Reason = Discharged, "errors." + g.Name() + " against something other than the no-value sentinel"
+			}
+			r.Add(o)
 		}
 	}
 	return n
